@@ -19,9 +19,10 @@ type parserAnchors struct {
 	addErrAt     *ssa.Function // the function that appends to the error list
 	errRecorders map[*ssa.Function]bool
 	ctor         *ssa.Function
-	tolerant     *types.Var          // Parser field reached from WithTolerantMode
-	smart        *types.Var          // Parser field reached from WithSmartSemicolon
-	flow         map[string][]string // recorded option flows
+	tolerant     *types.Var                  // Parser field reached from WithTolerantMode
+	smart        *types.Var                  // Parser field reached from WithSmartSemicolon
+	flow         map[string][]string         // recorded option flows
+	flagPath     map[*types.Var][]*types.Var // mode flag -> its field path inside Parser
 	problems     []string
 }
 
@@ -85,81 +86,147 @@ func (c *Ctx) parserAnchors() *parserAnchors {
 	return a
 }
 
-// optionFlow follows builder setter parameter -> builder field -> options field -> parser field.
+// fieldPath: addr = &(&(&root.f1).f2).f3 -> (root, [f1 f2 f3]); a plain value gives (v, nil).
+func fieldPath(addr ssa.Value) (ssa.Value, []*types.Var) {
+	var path []*types.Var
+	for {
+		fa, ok := addr.(*ssa.FieldAddr)
+		if !ok {
+			break
+		}
+		path = append([]*types.Var{fieldOfAddr(fa)}, path...)
+		addr = fa.X
+	}
+	return addr, path
+}
+
+// loadedPath: v = *addr (or a Field extraction chain of a loaded struct) -> root and field path of what is read.
+func loadedPath(v ssa.Value) (ssa.Value, []*types.Var) {
+	var suffix []*types.Var
+	for {
+		fv, ok := v.(*ssa.Field)
+		if !ok {
+			break
+		}
+		suffix = append([]*types.Var{fieldOfField(fv)}, suffix...)
+		v = fv.X
+	}
+	u, ok := v.(*ssa.UnOp)
+	if !ok || u.Op != token.MUL {
+		return nil, nil
+	}
+	root, path := fieldPath(u.X)
+	if len(path) == 0 && len(suffix) == 0 {
+		return nil, nil
+	}
+	return root, append(path, suffix...)
+}
+
+func isPathPrefix(pre, full []*types.Var) bool {
+	if len(pre) == 0 || len(pre) > len(full) {
+		return false
+	}
+	for i := range pre {
+		if pre[i] != full[i] {
+			return false
+		}
+	}
+	return true
+}
+
+func pathString(owner string, path []*types.Var) string {
+	out := owner
+	for _, v := range path {
+		out += "." + v.Name()
+	}
+	return out
+}
+
+// optionFlow follows builder setter parameter -> builder field -> options field -> parser field. A field may sit
+// inside a struct that is copied as a whole (Builder.modes.tolerant -> options.modes -> Parser.modes): the flow is
+// tracked as a field path, a copy of any prefix of the path carries the rest of it along.
 func (c *Ctx) optionFlow(a *parserAnchors, setter string) *types.Var {
 	f := c.fn("(*parser.Builder)." + setter)
 	if f == nil || len(f.Params) != 2 {
 		a.problems = append(a.problems, setter+" not found")
 		return nil
 	}
-	var bfld *types.Var
+	var bpath []*types.Var
 	n := 0
 	allInstrs(f, func(_ *ssa.BasicBlock, _ int, in ssa.Instruction) {
 		if st, ok := in.(*ssa.Store); ok {
-			if fa, ok := st.Addr.(*ssa.FieldAddr); ok && fa.X == f.Params[0] {
+			if root, path := fieldPath(st.Addr); root == ssa.Value(f.Params[0]) && len(path) > 0 {
 				n++
 				if st.Val == ssa.Value(f.Params[1]) {
-					bfld = fieldOfAddr(fa)
+					bpath = path
 				}
 			}
 		}
 	})
-	if bfld == nil || n != 1 {
+	if bpath == nil || n != 1 {
 		a.problems = append(a.problems, setter+": does not store exactly its parameter into one builder field")
 		return nil
 	}
-	// builder field -> options field (in Build)
-	build := c.fn("(*parser.Builder).Build")
-	var ofld *types.Var
-	nb := 0
-	if build != nil {
-		allInstrs(build, func(_ *ssa.BasicBlock, _ int, in ssa.Instruction) {
+	// step: in function fn, exactly one store copies a prefix of src (read from a value of type fromType) somewhere;
+	// the destination path plus the uncopied rest of src is the new path
+	step := func(fn *ssa.Function, src []*types.Var, fromPkg, fromType string) ([]*types.Var, ssa.Value, int) {
+		var dst []*types.Var
+		var dstRoot ssa.Value
+		cnt := 0
+		if fn == nil {
+			return nil, nil, 0
+		}
+		allInstrs(fn, func(_ *ssa.BasicBlock, _ int, in ssa.Instruction) {
 			st, ok := in.(*ssa.Store)
 			if !ok {
 				return
 			}
-			if _, ok := isFieldLoad(st.Val, bfld); !ok {
+			root, path := loadedPath(st.Val)
+			if root == nil || !namedIs(root.Type(), fromPkg, fromType) || !isPathPrefix(path, src) {
 				return
 			}
-			nb++
-			if fa, ok := st.Addr.(*ssa.FieldAddr); ok && !namedIs(fa.X.Type(), "parser", "Builder") {
-				ofld = fieldOfAddr(fa)
+			cnt++
+			droot, dpath := fieldPath(st.Addr)
+			if len(dpath) == 0 {
+				return
 			}
+			dst = append(append([]*types.Var(nil), dpath...), src[len(path):]...)
+			dstRoot = droot
 		})
+		return dst, dstRoot, cnt
 	}
-	if ofld == nil || nb != 1 {
-		a.problems = append(a.problems, fmt.Sprintf("%s: builder field %s is not copied into exactly one options field by Build (found %d reads)", setter, bfld.Name(), nb))
+	build := c.fn("(*parser.Builder).Build")
+	opath, oroot, nb := step(build, bpath, "parser", "Builder")
+	if opath == nil || nb != 1 || namedIs(oroot.Type(), "parser", "Builder") {
+		a.problems = append(a.problems, fmt.Sprintf("%s: builder field %s is not copied into exactly one options field by Build (found %d reads)", setter, pathString("Builder", bpath), nb))
 		return nil
 	}
-	// options field -> parser field (in the constructor)
-	var pfld *types.Var
-	np := 0
-	allInstrs(a.ctor, func(_ *ssa.BasicBlock, _ int, in ssa.Instruction) {
-		st, ok := in.(*ssa.Store)
-		if !ok {
-			return
-		}
-		src := false
-		if _, ok := isFieldLoad(st.Val, ofld); ok {
-			src = true
-		}
-		if fv, ok := st.Val.(*ssa.Field); ok && fieldOfField(fv) == ofld {
-			src = true
-		}
-		if !src {
-			return
-		}
-		np++
-		if fa, ok := st.Addr.(*ssa.FieldAddr); ok && namedIs(fa.X.Type(), "parser", "Parser") {
-			pfld = fieldOfAddr(fa)
-		}
-	})
-	if pfld == nil || np != 1 {
-		a.problems = append(a.problems, fmt.Sprintf("%s: options field %s is not stored into exactly one Parser field by the constructor (found %d)", setter, ofld.Name(), np))
+	otype := namedOf(deref(oroot.Type()))
+	if otype == nil {
+		a.problems = append(a.problems, setter+": the options value Build fills has no named type")
 		return nil
 	}
-	a.flow[setter] = []string{"Builder." + bfld.Name(), "parserOptions." + ofld.Name(), "Parser." + pfld.Name()}
-	return pfld
+	ppath, proot, np := step(a.ctor, opath, "parser", otype.Obj().Name())
+	if ppath == nil || np != 1 || !namedIs(proot.Type(), "parser", "Parser") {
+		a.problems = append(a.problems, fmt.Sprintf("%s: options field %s is not stored into exactly one Parser field by the constructor (found %d)", setter, pathString(otype.Obj().Name(), opath), np))
+		return nil
+	}
+	a.flow[setter] = []string{pathString("Builder", bpath), pathString(otype.Obj().Name(), opath), pathString("Parser", ppath)}
+	if a.flagPath == nil {
+		a.flagPath = map[*types.Var][]*types.Var{}
+	}
+	leaf := ppath[len(ppath)-1]
+	a.flagPath[leaf] = ppath
+	return leaf
+}
+
+// writesFlag: st stores to the parser's copy of the mode flag fld (the field itself or a struct that contains it).
+func (a *parserAnchors) writesFlag(st *ssa.Store, fld *types.Var) bool {
+	root, path := fieldPath(st.Addr)
+	if len(path) == 0 || !namedIs(root.Type(), "parser", "Parser") {
+		return false
+	}
+	return isPathPrefix(path, a.flagPath[fld])
 }
 
 // ---- condition atoms -------------------------------------------------------------------------
@@ -235,9 +302,11 @@ func (a *parserAnchors) parseCond(v ssa.Value) atom {
 			return atom{kind: atPeekNewline, neg: neg}
 		}
 		if x.Op == token.MUL {
-			if fa, ok := x.X.(*ssa.FieldAddr); ok && namedIs(fa.X.Type(), "parser", "Parser") {
-				if b, ok := fieldOfAddr(fa).Type().Underlying().(*types.Basic); ok && b.Kind() == types.Bool {
-					return atom{kind: atFlag, neg: neg, fld: fieldOfAddr(fa)}
+			// a bool field of the parser, possibly inside a struct field (p.modes.tolerant)
+			if root, path := fieldPath(x.X); len(path) > 0 && namedIs(root.Type(), "parser", "Parser") {
+				leaf := path[len(path)-1]
+				if b, ok := leaf.Type().Underlying().(*types.Basic); ok && b.Kind() == types.Bool {
+					return atom{kind: atFlag, neg: neg, fld: leaf}
 				}
 			}
 		}
@@ -400,7 +469,11 @@ func (a *parserAnchors) purePredicate(f *ssa.Function) bool {
 
 // pureReader: a function of the package without stores and without calls other than to pure functions (level readers).
 func (a *parserAnchors) pureReader(f *ssa.Function) bool {
-	if f == nil || f.Blocks == nil {
+	return a.pureReaderDepth(f, 0)
+}
+
+func (a *parserAnchors) pureReaderDepth(f *ssa.Function, depth int) bool {
+	if f == nil || f.Blocks == nil || depth > 3 {
 		return false
 	}
 	ok := true
@@ -409,9 +482,14 @@ func (a *parserAnchors) pureReader(f *ssa.Function) bool {
 		case *ssa.Store, *ssa.MapUpdate, *ssa.Send, *ssa.Go, *ssa.Defer, *ssa.Panic:
 			ok = false
 		case *ssa.Call:
-			if _, isB := x.Call.Value.(*ssa.Builtin); !isB {
-				ok = false
+			if _, isB := x.Call.Value.(*ssa.Builtin); isB {
+				return
 			}
+			// a call to another store-free function of the same package
+			if cal := x.Call.StaticCallee(); cal != nil && cal.Pkg == f.Pkg && cal != f && a.pureReaderDepth(cal, depth+1) {
+				return
+			}
+			ok = false
 		}
 	})
 	return ok
